@@ -148,6 +148,11 @@ def _check(prog, rep):
     r3.check(any(pol and a == ("b", ("field", m.OPT, "break_words")) for a, pol in facts_bw), "bw-flag",
              "break_words runs only when options.break_words is set", "dominating guard", "break_words is not guarded by options.break_words",
              site=site_of_block(body, bw[0]))
+    # ... and under no further condition: a word wider than the line must always be broken when the flag is set
+    extra_bw = [(a, pol) for a, pol in facts_bw if not (pol and a == ("b", ("field", m.OPT, "break_words")))]
+    r3.check(not extra_bw, "bw-only-flag", "break_words runs whenever options.break_words is set", "no other dominating condition",
+             "break_words additionally depends on %s: with break_words set, over-long words stay unbroken when that condition fails"
+             % [(D(a[1]) if a[0] == "b" else a[0], pol) for a, pol in extra_bw][:3], site=site_of_block(body, bw[0]))
     # R4: sentinel
     r4 = Rule(rep, "C02.R4", SLOW, site=body.span)
     ins = [b for b, t, c in body.calls() if c.name == "Vec::insert" and b not in m.lm.blocks]
@@ -159,6 +164,14 @@ def _check(prog, rep):
         bwf = any(pol and a == ("b", ("field", m.OPT, "break_words")) for a, pol in f)
         ne = any(empty_fact(x, m.II) is False for x in f)
         args = [prog.simp(a, body) for a in s.call_args(ib)]
+        from ..idioms import vec_empty_fact
+        extra = [(a, pol) for a, pol in f if not (pol and a == ("b", ("field", m.OPT, "break_words")))
+                 and empty_fact((a, pol), m.II) is None and vec_empty_fact((a, pol), m.acc_entry) is None
+                 and vec_empty_fact((a, pol), ("param", 3, body.arg_names.get(3, "_3"))) is None]
+        r4.check(not extra, "sentinel-only-guards", "the sentinel depends on nothing but break_words, the initial indent and the output being empty",
+                 "no other dominating condition", "the sentinel insert additionally depends on %s: when that condition fails a first "
+                 "word wider than the first line is not moved to the next line" % [(D(a[1]) if a[0] == "b" else a[0], pol) for a, pol in extra][:3],
+                 site=site_of_block(body, ib))
         r4.check(bwf and ne and args[1] == ("int", 0), "sentinel-guard", "the sentinel is inserted at position 0 under break_words && !initial_indent.is_empty()",
                  "dominating guards", "the sentinel insert is not guarded by break_words and a non-empty initial indent (guards: break_words=%s, "
                  "!EMPTY(initial_indent)=%s, position %s)" % (bwf, ne, D(args[1])), site=site_of_block(body, ib))
